@@ -478,7 +478,7 @@ Hint Resolve fc_clock_tick : fcomm.
 
 Lemma fc_continue_loop fuel : C (continue_loop I sw fuel).
 Proof.
-  induction fuel as [|f IH]; cbn [continue_loop]; [apply commF_fail|].
+  induction fuel as [|f IH]; cbn [continue_loop]; [apply commF_panic|].
   intros w. rewrite fc_continue_single_step.
   destruct (continue_single_step I sw w) as [[ends|k m|site] w']; [| |reflexivity].
   - destruct ends; [reflexivity|].
